@@ -45,6 +45,13 @@ lc_fail(Instance* i, const char* check, const char* fmt_what)
         return true;
     char disc[64];
     snprintf(disc, sizeof disc, "%s", i ? (i->is_cam ? "camera" : "storage") : "unknown");
+    if (*hub.context) {
+        // After a configure-while-running the signature names the history class, not the individual
+        // breach: one root cause shows up as many different breaches depending on the schedule.
+        char what[200];
+        snprintf(what, sizeof what, "[%s|%s] %s", check, disc, fmt_what);
+        return hub.c->fail_soft("C08", "lifecycle", hub.context, "%s%d (instance #%d): %s", i ? (i->is_cam ? "vcam" : "vstore") : "?", i ? i->idx : -1, i ? i->serial : -1, what);
+    }
     return hub.c->fail_soft(hub.lifecycle_prop, check, disc, "%s%d (instance #%d): %s", i ? (i->is_cam ? "vcam" : "vstore") : "?", i ? i->idx : -1,
                             i ? i->serial : -1, fmt_what);
 }
